@@ -211,7 +211,8 @@ impl Driver {
 
     fn conv(&self, t: &Type, generics: &BTreeSet<String>, self_ty: Option<&str>, extra_adt: Option<&str>) -> R<Ty> {
         let adts = &self.tables.adts;
-        conv_ty(t, &|n| adts.contains_key(n) || Some(n) == extra_adt, generics, self_ty)
+        let ext = &self.tables.externs;
+        conv_ty(t, &|n| adts.contains_key(n) || Some(n) == extra_adt || ext.contains_key(n.strip_prefix("extern:").unwrap_or(n)), generics, self_ty)
     }
 
     fn generics_of(g: &Generics) -> BTreeSet<String> {
@@ -229,7 +230,10 @@ impl Driver {
         let mut fields = vec![];
         for (i, f) in st.fields.iter().enumerate() {
             let fname = f.ident.as_ref().map(|x| x.to_string()).unwrap_or_else(|| i.to_string());
-            let ty = self.conv(&f.ty, &gens, Some(name), Some(name)).map_err(|e| format!("struct `{}` field `{}`: {}", name, fname, e))?;
+            let ty = match self.conv(&f.ty, &gens, Some(name), Some(name)) {
+                Ok(t) => t,
+                Err(e) => Ty::Opaque(e),
+            };
             fields.push((fname, ty));
         }
         let generated = map.is_empty();
@@ -329,6 +333,33 @@ impl Driver {
                 const_generics.push((c.ident.to_string(), self.conv(&c.ty, &gens, st, None)?));
             }
         }
+        // associated constants of generic type parameters (`R::BITS_PER_PIXEL`, `C::Raw::BITS_PER_PIXEL`)
+        let mut assoc_params: Vec<(String, Ty)> = vec![];
+        {
+            struct V<'g> {
+                gens: &'g BTreeSet<String>,
+                found: Vec<String>,
+            }
+            impl<'ast, 'g> syn::visit::Visit<'ast> for V<'g> {
+                fn visit_expr_path(&mut self, p: &'ast ExprPath) {
+                    if p.qself.is_none() && p.path.segments.len() >= 2 && self.gens.contains(&p.path.segments[0].ident.to_string()) {
+                        let k = p.path.segments.iter().map(|s| s.ident.to_string()).collect::<Vec<_>>().join("::");
+                        if !self.found.contains(&k) {
+                            self.found.push(k);
+                        }
+                    }
+                }
+            }
+            let mut v = V { gens: &gens, found: vec![] };
+            syn::visit::Visit::visit_block(&mut v, ff.block);
+            for k in v.found {
+                let last = k.rsplit("::").next().unwrap().to_string();
+                match self.tables.assoc_tys.get(&last) {
+                    Some(t) => assoc_params.push((k, t.clone())),
+                    None => return Err(format!("{} `{}`: `{}` is an associated item of a generic parameter; give its type with an `assoc {} <type>` line", file, spec, k, last)),
+                }
+            }
+        }
         let mut self_kind = SelfKind::None;
         let mut params = vec![];
         for a in ff.sig.inputs.iter() {
@@ -396,7 +427,7 @@ impl Driver {
         if self.tables.fns.iter().any(|f| f.coq == coq) {
             return Err(format!("{} `{}`: Coq name `{}` is already used (give `as=`)", file, spec, coq));
         }
-        let info = FnInfo { key: spec.to_string(), name: name.clone(), coq, self_ty: self_ty.clone(), trait_name: trait_spec.clone(), self_kind, const_generics, params, ret };
+        let info = FnInfo { key: spec.to_string(), name: name.clone(), coq, self_ty: self_ty.clone(), trait_name: trait_spec.clone(), self_kind, const_generics, assoc_params, params, ret };
         self.tables.fns.push(info);
         let idx = self.tables.fns.len() - 1;
         self.jobs.push(FnJob { file: file.to_string(), self_ty, trait_spec, name, info_idx: idx, module });
@@ -470,6 +501,11 @@ impl Driver {
         let mut binders = String::new();
         for (n, t) in info.const_generics.iter() {
             let c = tr.fresh(n);
+            write!(binders, " ({} : {})", c, self.tables.coq_ty(t)?).unwrap();
+            env.push(n, Var { coq: c, ty: t.clone() });
+        }
+        for (n, t) in info.assoc_params.iter() {
+            let c = tr.fresh(&n.replace("::", "_"));
             write!(binders, " ({} : {})", c, self.tables.coq_ty(t)?).unwrap();
             env.push(n, Var { coq: c, ty: t.clone() });
         }
@@ -599,6 +635,23 @@ fn main() {
     let cfg = std::fs::read_to_string(&args[2]).expect("cannot read configuration");
     let outdir = Path::new(&args[3]);
     let mut d = Driver { repo: args[1].clone(), sources: BTreeMap::new(), tables: Tables::default(), modules: vec![], jobs: vec![] };
+    // core::cmp::Ordering = Coq's comparison
+    d.tables.adts.insert(
+        "Ordering".into(),
+        Adt::Enum(EnumInfo {
+            name: "Ordering".into(),
+            coq_ty: "comparison".into(),
+            variants: vec![
+                VariantInfo { name: "Less".into(), ctor: "Lt".into(), fields: vec![] },
+                VariantInfo { name: "Equal".into(), ctor: "Eq".into(), fields: vec![] },
+                VariantInfo { name: "Greater".into(), ctor: "Gt".into(), fields: vec![] },
+            ],
+            eqb: None,
+            generated: false,
+            module: String::new(),
+            origin: "core::cmp::Ordering".into(),
+        }),
+    );
     let mut fatal: Vec<String> = vec![];
     for (ln, raw) in cfg.lines().enumerate() {
         let line = raw.split('#').next().unwrap().trim();
@@ -641,6 +694,39 @@ fn main() {
                 r
             }
             "const" if w.len() == 3 => d.add_const(w[1], w[2], cur),
+            "assoc" if w.len() == 3 => {
+                let t: R<Type> = syn::parse_str(w[2]).map_err(|e| e.to_string());
+                t.and_then(|t| d.conv(&t, &BTreeSet::new(), None, None)).map(|t| {
+                    d.tables.assoc_tys.insert(w[1].to_string(), t);
+                })
+            }
+            // extern <RustType> = <coq type> <method>:<rust return type>:<coq function, `~` for blanks> ...
+            "extern" if w.len() >= 4 && w[2] == "=" => {
+                let mut methods = vec![];
+                let mut err = None;
+                for m in &w[4..] {
+                    let ps: Vec<&str> = m.splitn(3, ':').collect();
+                    if ps.len() != 3 {
+                        err = Some(format!("extern method `{}` is not name:type:coqfn", m));
+                        break;
+                    }
+                    let t: R<Type> = syn::parse_str(ps[1]).map_err(|e| e.to_string());
+                    match t.and_then(|t| d.conv(&t, &BTreeSet::new(), None, None)) {
+                        Ok(t) => methods.push((ps[0].to_string(), t, ps[2].replace('~', " "))),
+                        Err(e) => {
+                            err = Some(e);
+                            break;
+                        }
+                    }
+                }
+                match err {
+                    Some(e) => Err(e),
+                    None => {
+                        d.tables.externs.insert(w[1].to_string(), ExternInfo { name: w[1].to_string(), coq_ty: w[3].replace('~', " "), methods });
+                        Ok(())
+                    }
+                }
+            }
             "fn" if w.len() == 3 => d.add_fn(w[1], w[2], opts.get("as").cloned(), cur),
             _ => Err(format!("cannot parse configuration line: {}", line)),
         };
